@@ -125,6 +125,7 @@ def pGoVal : Nat → Tok → Option (GoVal × Tok)
       | _ => none
     | "PT" => some (.other "geom.Point", t.drop 2)
     | "jn" => some (.other "json.Number", t.drop 1)
+    | "ref" => match t with | k :: t => some (.other ("ref:" ++ k), t) | _ => none
     | _ => none
   | _+1, [] => none
 def pGoVals : Nat → Nat → Tok → Option (List GoVal × Tok)
@@ -147,6 +148,33 @@ def skipF1s : Nat → Tok → Option Tok
   | 0, t => some t
   | n+1, k :: t => do let m ← k.toNat?; skipF1s n (t.drop m)
   | _+1, [] => none
+end
+
+/-! Cyclic values. A hand-built `[]interface{}` can contain itself (`x[0] = x`); `GoVal` is a finite
+tree type, so a cyclic value is represented by its UNFOLDING: `ref k` (the k-th enclosing array) is
+replaced by a copy of that array, repeatedly, to a depth at which the decoder cannot tell the
+difference — `decodeCoordinates4` inspects at most four levels of arrays plus the kind of the
+elements at the fifth; below the unfolding budget everything is `other`. The budget is 12 because a
+`ref` step consumes one unit as well (≥ 6 real levels). The unpatched decoder must return on the
+cyclic value exactly what the model returns on this unfolding. -/
+mutual
+def unfold : Nat → List GoVal → GoVal → GoVal
+  | 0, _, _ => .other "deep"
+  | d+1, st, .arr xs => .arr (unfoldL d (.arr xs :: st) xs)
+  | d+1, st, .obj ks vs => .obj ks (unfoldL d st vs)
+  | d+1, st, .other s =>
+    if s.startsWith "ref:" then
+      match (s.drop 4).toString.toNat? with
+      | some k => match st.drop k with
+        | a :: rest => unfold d rest a
+        | [] => .nil
+      | none => .nil
+    else .other s
+  | _+1, _, v => v
+def unfoldL : Nat → List GoVal → List GoVal → List GoVal
+  | 0, _, _ => []
+  | d+1, st, v :: vs => unfold d st v :: unfoldL (d+1) st vs
+  | _+1, _, [] => []
 end
 
 mutual
@@ -178,7 +206,9 @@ def parseCase (lhs : Tok) : Option Case :=
   | ["gj", "NILPTR"] => some ⟨"gj", .value, 1, predJ (fromGeoJSON none), false⟩
   | "gj" :: t :: v =>
     match hexStrTok (t.drop 1).toString, pGoVal 100 v with
-    | some typ, some (c, _) => some ⟨"gj", .value, c.size, predJ (fromGeoJSON (some (typ, c))), hasNonFinite c⟩
+    | some typ, some (raw, _) =>
+      let c := unfold 12 [] raw
+      some ⟨"gj", .value, c.size, predJ (fromGeoJSON (some (typ, c))), hasNonFinite c⟩
     | _, _ => none
   | _ => none
 
